@@ -166,7 +166,10 @@ def lower_range(node, surface):
             for sp in br["specs"]:
                 if sp["r"] == "exact" and style != "pipe" and (surface.plain or rng.random() < 0.6) and \
                         not (isinstance(sp["v"], float) and not float(sp["v"]).is_integer() and False):
-                    counts.append(sp["v"])      # a bare number
+                    v = sp["v"]
+                    if isinstance(v, float) and v.is_integer() and abs(v) < 2**53 and (sp.get("form") == "int" or (not surface.plain and rng.random() < 0.35)):
+                        v = int(v)              # an integer literal as the exact count of a float range
+                    counts.append(v)            # a bare number
                 else:
                     counts.append(spec_to_str(sp, surface, ty or "i32"))
             if style == "pipe":
